@@ -18,3 +18,4 @@ INVARIANT AuthSound
 INVARIANT NoProofNoAuth
 INVARIANT SelSound
 INVARIANT ByeCloses
+CONSTRAINT DataOnlyWithoutTls
